@@ -256,6 +256,7 @@ class Runner:
         self.frozen = []  # (origin label, model, Snap)
         self.history = []
         self.removed_any = False
+        self.slice_broken = False  # DBN: an earlier (inherited) remove_node left the two-slice representation inconsistent
         self.cur = self.new()
 
     # ---- construction
@@ -269,7 +270,7 @@ class Runner:
         return Snap(self.cur if m is None else m, self.directed)
 
     def fail(self, key, what):
-        if self.cls == "DBN" and self.removed_any and ":raised-but-mutated" not in key and ".remove_node:" not in key:
+        if self.cls == "DBN" and self.slice_broken and ":raised-but-mutated" not in key and ".remove_node:" not in key:
             # nx's inherited remove_node breaks the two-slice representation every DBN method relies on; consequences are keyed apart
             key += ":after-remove_node"
         self.fails.append({"key": key, "what": f"after history {self.history}: {what}"})
@@ -376,6 +377,8 @@ class Runner:
             if not ok2 or v2 is not True:
                 self.fail(f"{n}.check_model:rejects-consistent-model", f"after {op}: every node has a valid CPD over its parents but check_model -> {v2!r}")
         self.check_frozen(op)
+        if self.cls == "DBN" and "twoslice" in self.inv_kinds(self.snap()):
+            self.slice_broken = True
 
     def run(self, ops, stop=True):
         """the exploration of a history ends at the first state that violates Inv (the induction hypothesis is gone;
